@@ -351,6 +351,23 @@ theorem crash_old_or_new (s0 : FS) (path tmp : FName) (ino : Ino) (mode : Nat) (
     readFile d content path = readNow s0 path ∨ readFile d content path = some chunks.flatten :=
   crash_old_or_new_aux s0 path tmp ino mode chunks hq htmp hino pre hpre d content hcv
 
+/-- **crash_old_or_new_conforming.**  The same for every call sequence the protocol predicate `protocolWord`
+    accepts, not only the one `AtomicFile` issues today: any calls on the temp file only (create, chmod or
+    fchmod, any number of writes and fsyncs, close, in any order) after which the temp file is clean and holds
+    `new`, followed by the rename.  (Hence `fchmod` for `chmod`, split writes, an additional fsync or a different
+    temp name are all covered; a rename before the last write is synced is not.) -/
+theorem crash_old_or_new_conforming (s0 : FS) (path tmp : FName) (ino : Ino) (bodyOps : List Sys) (new : Bytes)
+    (hq : s0.past = [] ∧ s0.dirty = [])
+    (htmp : tmp ≠ path)
+    (hino : ∀ i, dirLookup s0.dir path = some i → i ≠ ino)
+    (hbody : ∀ op ∈ bodyOps, TmpOnly tmp ino op)
+    (hstate : dirLookup (run bodyOps s0).dir tmp = some ino ∧ dataLookup (run bodyOps s0).data ino = some new ∧
+      ino ∉ (run bodyOps s0).dirty)
+    (pre : List Sys) (hpre : pre <+: bodyOps ++ [Sys.rename tmp path])
+    (d : Dir) (content : Ino → Option Bytes) (hcv : CrashView (run pre s0) d content) :
+    readFile d content path = readNow s0 path ∨ readFile d content path = some new :=
+  crash_old_or_new_general s0 path tmp ino bodyOps new hq htmp hino hbody hstate pre hpre d content hcv
+
 /-- **complete_write_reads_new.**  When the sequence ran to the end, the loader finds the new content. -/
 theorem complete_write_reads_new (s0 : FS) (path tmp : FName) (ino : Ino) (mode : Nat) (chunks : List Bytes)
     (hq : s0.past = [] ∧ s0.dirty = [])
@@ -391,12 +408,24 @@ def evOf : Sys → SysEv
     names the target) — for any content and any number of writes. -/
 theorem atomic_write_conforms (path tmp : FName) (ino : Ino) (mode : Nat) (chunks : List Bytes) :
     protocolWord ((atomicWrite path tmp ino mode chunks).map evOf) = true := by
-  simp [atomicWrite, protocolWord, evOf, List.dropWhile]
-  decide
+  have hmap : (chunks.map (Sys.write ino)).map evOf = List.replicate chunks.length wev := by
+    induction chunks with
+    | nil => rfl
+    | cons c cs ih => simp [evOf, wev, List.replicate_succ, ih]
+  have h := protocol_writes chunks.length
+  rw [← hmap] at h
+  simpa [atomicWrite, evOf] using h
 
 -- the predicate rejects a writer that renames before fsync, or writes to the target
 example : protocolWord [⟨.mkstemp, false⟩, ⟨.chmod, false⟩, ⟨.write, false⟩, ⟨.close, false⟩, ⟨.rename, true⟩, ⟨.fsync, false⟩] = false := by decide
 example : protocolWord [⟨.mkstemp, false⟩, ⟨.chmod, false⟩, ⟨.write, true⟩, ⟨.fsync, false⟩, ⟨.close, false⟩, ⟨.rename, true⟩] = false := by decide
+-- rename before the last write is synced (flush/close moved after the rename)
+example : protocolWord [⟨.mkstemp, false⟩, ⟨.chmod, false⟩, ⟨.write, false⟩, ⟨.rename, true⟩, ⟨.write, false⟩, ⟨.fsync, false⟩, ⟨.close, false⟩] = false := by decide
+example : protocolWord [⟨.mkstemp, false⟩, ⟨.write, false⟩, ⟨.fsync, false⟩, ⟨.write, false⟩, ⟨.close, false⟩, ⟨.rename, true⟩] = false := by decide
+-- harmless variations are accepted: no chmod / fchmod later, split writes with intermediate fsyncs, close before fsync is not
+-- required, an fsync after the rename
+example : protocolWord [⟨.unlink, false⟩, ⟨.mkstemp, false⟩, ⟨.write, false⟩, ⟨.fsync, false⟩, ⟨.write, false⟩, ⟨.chmod, false⟩,
+    ⟨.fsync, false⟩, ⟨.close, false⟩, ⟨.rename, true⟩, ⟨.fsync, false⟩] = true := by decide
 
 section FsExamples
 
